@@ -4,6 +4,7 @@ import (
 	"fmt"
 	"go/token"
 	"go/types"
+	"sort"
 
 	"golang.org/x/tools/go/ssa"
 )
@@ -66,6 +67,7 @@ func init() {
 			{ID: "R16c", Floor: 2, Doc: "rollback or poison after a failed section write", Run: ruleR16c},
 			{ID: "R16e", Floor: 8, Doc: "framing writer: every part written by its own checked Write, in order (= R01b)", Run: ruleR01b},
 			{ID: "R16g", Floor: 2, Doc: "a deferred function assigns the enclosing function's named error result only where that result is still nil (or when wrapping it): the primary error — a failed Finalize, a failed write — is never replaced by the outcome of a cleanup", Run: ruleR16g},
+			{ID: "R16h", Floor: 10, Doc: "no NEW dropped error: a call whose error result is discarded (expression statement, or assigned to _) must be one of the sites of the pinned tree (table droppedErrorBaseline, keyed by enclosing function and callee); deferred calls and fmt printing are not counted", Run: ruleR16h},
 			{ID: "R16f", Floor: 1, Doc: "the deferred writer remembers its CAR writer only when constructing it (header write included) succeeded", Run: ruleR16f},
 			{ID: "R16d", Floor: 2, Doc: "position bookkeeping adds exactly the reported byte count", Run: ruleR16d},
 		},
@@ -1342,4 +1344,91 @@ func flowSources(v ssa.Value) map[ssa.Value]bool {
 	}
 	walk(v, 0)
 	return out
+}
+
+// droppedErrors lists the (function, callee) pairs whose error result is discarded.
+func droppedErrors(c *Ctx) map[string]string {
+	out := map[string]string{}
+	errT := types.Universe.Lookup("error").Type()
+	for _, fn := range c.RepoFuncs() {
+		for _, g := range withAnon(fn) {
+			eachInstr(g, func(in ssa.Instruction) {
+				ci, ok := in.(*ssa.Call)
+				if !ok {
+					return
+				}
+				sig := ci.Common().Signature()
+				if sig == nil || sig.Results().Len() == 0 {
+					return
+				}
+				last := sig.Results().Len() - 1
+				if !types.Identical(sig.Results().At(last).Type(), errT) {
+					return
+				}
+				name := ""
+				if ci.Common().IsInvoke() {
+					name = "invoke:" + ci.Common().Method.Name()
+				} else if f := calleeFunc(ci.Common()); f != nil {
+					name = funcKey(f)
+					if f.Pkg() != nil && f.Pkg().Path() == "fmt" {
+						return
+					}
+					// writers that cannot fail
+					if _, rn := recvTypeName(f); f.Pkg() != nil && (f.Pkg().Path() == "bytes" && rn == "Buffer" || f.Pkg().Path() == "strings" && rn == "Builder") {
+						return
+					}
+				} else {
+					name = "dynamic"
+				}
+				used := false
+				refs := ci.Referrers()
+				if sig.Results().Len() == 1 {
+					for _, r := range *refs {
+						if _, isDbg := r.(*ssa.DebugRef); !isDbg {
+							used = true
+						}
+					}
+				} else {
+					for _, r := range *refs {
+						if ex, isEx := r.(*ssa.Extract); isEx && ex.Index == last {
+							for _, rr := range *ex.Referrers() {
+								if _, isDbg := rr.(*ssa.DebugRef); !isDbg {
+									used = true
+								}
+							}
+						}
+					}
+				}
+				if !used {
+					out[fnKey(rootFuncOf(g))+" -> "+name] = c.Pos(ci.Pos())
+				}
+			})
+		}
+	}
+	return out
+}
+
+func rootFuncOf(f *ssa.Function) *ssa.Function {
+	for f.Parent() != nil {
+		f = f.Parent()
+	}
+	return f
+}
+
+func ruleR16h(c *Ctx, r *Report) {
+	got := droppedErrors(c)
+	var keys []string
+	for k := range got {
+		keys = append(keys, k)
+	}
+	sort.Strings(keys)
+	for _, k := range keys {
+		key := "dropped-error@" + k
+		if why, ok := droppedErrorBaseline[k]; ok {
+			r.Exempt(key, got[k], "site of the pinned tree: "+why)
+			continue
+		}
+		r.Viol(key, got[k], "the error returned by this call is discarded, and the pinned tree has no such site: a failure here (write, seek, close, decode) goes unnoticed and the operation reports success")
+	}
+	r.Count("discarded error results (all in the baseline table)", len(keys))
 }
